@@ -233,8 +233,8 @@ func RefPairs(seed int64, n int) []Case {
 		fx("fixed-nested-inline-allof", c.Root, InlineAll(c.Root, map[string]bool{"schemas": true, "schemas-everywhere": true}), "inline-all-everywhere")
 	}
 	for _, b := range bases {
-		if b.Spec == nil {
-			continue
+		if b.Spec == nil || !b.Safe {
+			continue // fixed cases that carry a recorded finding are not rewritten
 		}
 		mk := func(variant string, spec M) {
 			c := b
